@@ -19,6 +19,9 @@ SNIPPETS = [
     "PROGRAM Prag\n{attribute 'first'\n 'continued'}\nVAR x : INT; END_VAR\nx := 1;\n(* multi\n   line\n   comment *)\nx := 2;\nEND_PROGRAM\n",
     "CONFIGURATION Conf\nRESOURCE R ON PLC\nTASK T(INTERVAL:=T#10ms,PRIORITY:=1);\nPROGRAM P1 WITH T : Main;\nEND_RESOURCE\nEND_CONFIGURATION\n",
     "program lower\nvar x : int; end_var\nif x = 1 then x := 2; elsif x = 2 then x := 3; end_if;\nend_program\n",
+    # literals that contain the very characters the alignment and wrapping passes search for
+    "PROGRAM Lit\nVAR w : WSTRING; s : STRING; n : INT; END_VAR\nLog(\"key=>value\");\nn           := 1;\nLog('k := v, w => x');\nw := \"a := b\";\nlongname_longname := 2;\ns := 'p, q, r, s, t, u, v, w, x, y, z, aa, bb, cc, dd, ee, ff, gg, hh, ii, jj, kk, ll, mm, nn, oo, pp, qq, rr, ss, tt, uu, vv';\nw := \"p, q, r, s, t, u, v, w, x, y, z, aa, bb, cc, dd, ee, ff, gg, hh, ii, jj, kk, ll, mm, nn, oo, pp, qq, rr, ss, tt, uu\";\nEND_PROGRAM\n",
+    "PROGRAM Tm\nVAR\n  start : TOD := TOD#08:30:00;\n  d : DT := DT#2024-01-01-12:00:00;\n  span : TIME := T#1h2m;\n  a,\n  b : INT;\n  verylongvariablename : DINT := 5;\nEND_VAR\nstart := TOD#09:15:00;\nEND_PROGRAM\n",
 ]
 
 
@@ -50,7 +53,7 @@ def gen_text(rng, corp):
         elif k == 2: lines.insert(i, "")
         elif k == 3: lines[i] = lines[i] + "   // note  " + str(rng.below(9))
         elif k == 4: lines[i] = lines[i].replace(" ", "\t", 1)
-        elif k == 5: lines.insert(i, rng.pick(["x := 1;", "(* c *)", "{p}", "y:=f(a,b ,c);", "z := 'q  q';", "IF a THEN", "END_IF", "a := aaaaaaaaaaaaaaaaaaaaaaaa + bbbbbbbbbbbbbbbbbbbbbbbbbbbbb + ccccccccccccccccccccccccccc + dddddddddddddddddddddd;"]))
+        elif k == 5: lines.insert(i, rng.pick(["x := 1;", "(* c *)", "{p}", "y:=f(a,b ,c);", "z := 'q  q';", "w := \"x := y, z => q\";", "Call(a := \"m=>n\", b := 'c,d');", "IF a THEN", "END_IF", "a := aaaaaaaaaaaaaaaaaaaaaaaa + bbbbbbbbbbbbbbbbbbbbbbbbbbbbb + ccccccccccccccccccccccccccc + dddddddddddddddddddddd;"]))
         elif k == 6 and len(lines) > 2: del lines[i]
         else: lines[i] = lines[i].lower() if rng.chance(1, 2) else lines[i].upper()
         t = "\n".join(lines)
